@@ -9,6 +9,9 @@
      revert | restart g | restart u | forget <ws> ...
      query <addrs> <keys> <from> <to> <chunk> <limit> <tokblock> <tokcount>
                                     addrs = a.b.c or '-'; keys = positions joined by '|', each k.k or 'e'; '-' = none
+     queryp <addrs> <keys> <from> <to> <chunk> <limit> <tokblock> <tokcount> <block> ...
+                                    same with pre-confirmed blocks (oldest first) above the head
+     specp <addrs> <keys> <from> <to> <block> ...      filter_spec over chain ++ pre-confirmed blocks
      spec <addrs> <keys> <from> <to>
      light <n>                      n blocks without transactions (err if any store fails)
      push | pop | forgetall         save / restore the session state; drop the whole cache (counterfactuals)
@@ -105,6 +108,12 @@ let () =
       | "forget" :: ws -> show_out (do_step (Forget (List.map num ws)))
       | ["query"; a; k; f; t; chunk; limit; tb; tc] ->
           show_out (do_step (Query (parse_filter a k, num f, num t, num chunk, num limit, (num tb, num tc))))
+      | "queryp" :: a :: k :: f :: t :: chunk :: limit :: tb :: tc :: pre ->
+          let (s', r) = do_query_pre !w_size member !st (parse_filter a k) (num f) (num t) (num chunk)
+                          (num limit) (num tb, num tc) (List.map parse_block pre) in
+          st := s'; show_out r
+      | "specp" :: a :: k :: f :: t :: pre ->
+          "spec " ^ show_evs (filter_spec (!st.chain @ List.map parse_block pre) (parse_filter a k) (num f) (num t))
       | ["spec"; a; k; f; t] ->
           "spec " ^ show_evs (filter_spec !st.chain (parse_filter a k) (num f) (num t))
       | ["hyp"] ->
